@@ -66,9 +66,9 @@ def evaluate(src, ident, tier, keep, props=None):
             dst = os.path.join(VERIF, 'seeded', ident)
             os.makedirs(dst, exist_ok=True)
             # store the patch as it applies to the current HEAD
-            rc, diff = sh(['git', 'diff'], cwd=wt)
-            with open(os.path.join(dst, 'patch.diff'), 'w') as f:
-                f.write(diff)
+            # against HEAD (a 3-way apply stages its result) and as bytes (some bundled files have CRLF line ends)
+            with open(os.path.join(dst, 'patch.diff'), 'wb') as f:
+                subprocess.run(['git', 'diff', 'HEAD'], cwd=wt, stdout=f)
             if os.path.abspath(demo) != os.path.abspath(os.path.join(dst, 'demo.py')):
                 shutil.copy(demo, os.path.join(dst, 'demo.py'))
             try:
